@@ -136,27 +136,28 @@ var nativeConc = func() int {
 // ---------------------------------------------------------------- cases
 
 type mcase struct {
-	Mode    string // ecb cbc cfb ofb ctr bc ofbnlf xts gbxts hctr
-	Dec     bool
-	Path    int
-	Conc    int    // batched path: 0 = the tier's own batch (4 synthetic if none); >0 = synthetic batch of that many blocks
-	Trim    bool   // batched path over the tier's own batch: cut the slices to one batch before handing them on
-	KeySeed uint64 // key = Fill(KeySeed,16); second key (XTS tweak key, HCTR hash key) = Fill(KeySeed+1,16)
-	IV      h.B    // IV / initial counter / tweak, 16 bytes (unused for ecb)
-	Sector  bool   // XTS: use the ...WithSector constructor (IV = little-endian sector number || 0^64)
-	Len     int
-	Seed    uint64 // message = Fill(Seed, Len)
-	Parts   []int  // lengths of the successive calls on one object; empty = one call
-	InPlace bool   // dst == src
-	GStart  bool   // guard page before the start of the buffers instead of after their end
-	DstLong bool   // disjoint only: hand over all of the remaining dst, not just len(src) bytes
-	SetIV   bool   // block modes offering SetIV: check that SetIV restarts the chain
-	Flip    int    // XTS/HCTR: tweak bit to flip for the sensitivity relation, -1 = none
+	Mode     string // ecb cbc cfb ofb ctr bc ofbnlf xts gbxts hctr
+	Dec      bool
+	Path     int
+	Conc     int    // batched path: 0 = the tier's own batch (4 synthetic if none); >0 = synthetic batch of that many blocks
+	Trim     bool   // batched path over the tier's own batch: cut the slices to one batch before handing them on
+	KeySeed  uint64 // key = Fill(KeySeed,16); second key (XTS tweak key, HCTR hash key) = Fill(KeySeed+1,16)
+	IV       h.B    // IV / initial counter / tweak, 16 bytes (unused for ecb)
+	Sector   bool   // XTS: use the ...WithSector constructor (IV = little-endian sector number || 0^64)
+	Len      int
+	Seed     uint64 // message = Fill(Seed, Len)
+	Parts    []int  // lengths of the successive calls on one object; empty = one call
+	InPlace  bool   // dst == src
+	GStart   bool   // guard page before the start of the buffers instead of after their end
+	DstLong  bool   // disjoint only: hand over all of the remaining dst, not just len(src) bytes
+	Scribble bool   // >= 2 calls: run every call through one reused scratch buffer and overwrite everything handed to a call before the next one
+	SetIV    bool   // block modes offering SetIV: check that SetIV restarts the chain
+	Flip     int    // XTS/HCTR: tweak bit to flip for the sensitivity relation, -1 = none
 }
 
 func (c mcase) Key() string {
 	return fmt.Sprintf("%s/%v/%d/%d%v/%x/%x/%v/%d/%x/%v/%v%v%v%v/%d", c.Mode, c.Dec, c.Path, c.Conc, c.Trim, c.KeySeed, []byte(c.IV), c.Sector,
-		c.Len, c.Seed, c.Parts, c.InPlace, c.GStart, c.DstLong, c.SetIV, c.Flip)
+		c.Len, c.Seed, c.Parts, c.InPlace, c.GStart, c.DstLong, c.SetIV, c.Flip) + fmt.Sprint(c.Scribble)
 }
 
 func (c *mcase) keys() (k1, k2 []byte) { return gen.Fill(c.KeySeed, 16), gen.Fill(c.KeySeed+1, 16) }
@@ -233,8 +234,25 @@ func (o *obj) typeName() string {
 	return fmt.Sprintf("%T", o.lp)
 }
 
+// scribble overwrites memory the implementation was handed with garbage: a
+// mode object must not keep references into its caller's memory.
+func scribble(b []byte) {
+	for i := range b {
+		b[i] = byte(0xd3 + 29*i)
+	}
+}
+
+// newObj builds one mode object. The key, IV and tweak slices handed to the
+// constructors are private copies that are overwritten as soon as the
+// constructor has returned.
 func (c *mcase) newObj(dec bool, iv []byte) (*obj, error) {
 	k1, k2 := c.keys()
+	iv = clone(iv)
+	defer func() {
+		scribble(k1)
+		scribble(k2)
+		scribble(iv)
+	}()
 	creator := func(k []byte) (cipher.Block, error) { return newBlock(c.Path, c.Conc, c.Trim, k) }
 	o := &obj{dec: dec}
 	var err error
@@ -320,7 +338,7 @@ const (
 	patCan   = 0xa5
 )
 
-type bufOpt struct{ inPlace, gStart, dstLong bool }
+type bufOpt struct{ inPlace, gStart, dstLong, scribble bool }
 
 // Guard-page regions are mapped once per process and reused (mapping four
 // fresh regions per call made the kernel the bottleneck); every use
@@ -389,6 +407,9 @@ func (c *mcase) run(dec bool, iv, msg []byte, parts []int, o bufOpt) ([]byte, er
 		return nil, fmt.Errorf("constructor failed: %v", err)
 	}
 	n := len(msg)
+	if o.scribble && len(parts) >= 2 {
+		return c.runScribbled(ob, msg, parts, o)
+	}
 	gs, src, scan := guarded(n, o.gStart, 0)
 	defer gs.Free()
 	copy(src, msg)
@@ -447,6 +468,67 @@ func (c *mcase) run(dec bool, iv, msg []byte, parts []int, o bufOpt) ([]byte, er
 		return nil, fmt.Errorf("harness: parts %v do not add up to %d", parts, n)
 	}
 	return clone(dst[:n]), nil
+}
+
+// runScribbled is the history in which the caller owns one scratch buffer: each
+// call gets its input copied into the (reused) guarded scratch regions, the
+// output is copied out, and then everything that was handed to the call - src,
+// dst including its spare room - is overwritten with garbage before the next
+// call. An object that chains from a reference into caller memory instead of
+// from its own copy goes wrong here.
+func (c *mcase) runScribbled(ob *obj, msg []byte, parts []int, o bufOpt) ([]byte, error) {
+	n := len(msg)
+	out := make([]byte, 0, n)
+	off := 0
+	for i, p := range parts {
+		gs, s, scan := guarded(p, o.gStart, 0)
+		copy(s, msg[off:off+p])
+		d, full, dcan := s, s, scan
+		var gd freer
+		if !o.inPlace {
+			room := p
+			if o.dstLong {
+				room = p + dstExtra
+			}
+			gd, full, dcan = guarded(room, o.gStart, 1)
+			for k := range full {
+				full[k] = patDst
+			}
+			d = full
+		}
+		ob.call(d, s)
+		where := fmt.Sprintf("call %d/%d (%d bytes at offset %d of %d, scratch buffer)", i+1, len(parts), p, off, n)
+		var err error
+		if !o.inPlace {
+			for k := p; k < len(full); k++ {
+				if full[k] != patDst {
+					err = fmt.Errorf("%s: dst byte %d beyond dst[:len(src)] was written (dst len %d)", where, k, len(full))
+					break
+				}
+			}
+			if err == nil && !bytes.Equal(s, msg[off:off+p]) {
+				err = fmt.Errorf("%s: src was modified", where)
+			}
+		}
+		if err == nil && (!canaryOK(scan) || !canaryOK(dcan)) {
+			err = fmt.Errorf("%s: bytes next to the buffer were overwritten", where)
+		}
+		out = append(out, d[:p]...)
+		scribble(s)
+		scribble(full)
+		gs.Free()
+		if gd != nil {
+			gd.Free()
+		}
+		if err != nil {
+			return nil, err
+		}
+		off += p
+	}
+	if off != n {
+		return nil, fmt.Errorf("harness: parts %v do not add up to %d", parts, n)
+	}
+	return out, nil
 }
 
 // ---------------------------------------------------------------- the check
@@ -579,6 +661,11 @@ func (c *mcase) classify(r *h.Rec, msg []byte) {
 	}
 	if len(c.Parts) >= 2 {
 		r.Label("calls>=2")
+		if c.Scribble {
+			r.Label("calls>=2: scratch buffer reused, handed memory scribbled between calls")
+		} else {
+			r.Label("calls>=2: consecutive parts of one buffer")
+		}
 		r.Label("calls=%d", len(c.Parts))
 	} else {
 		r.Label("calls=1")
@@ -671,10 +758,10 @@ func checkCase(c mcase, r *h.Rec) error {
 	c.classify(r, msg)
 	desc := func() string {
 		k1, k2 := c.keys()
-		return fmt.Sprintf("mode=%s dec=%v path=%s conc=%d trim=%v key=%x key2=%x iv=%x len=%d parts=%v inplace=%v guardstart=%v dstlong=%v msg=%s",
-			c.Mode, c.Dec, pathNames[c.Path], c.Conc, c.Trim, k1, k2, iv, c.Len, c.Parts, c.InPlace, c.GStart, c.DstLong, h.Hex(msg))
+		return fmt.Sprintf("mode=%s dec=%v path=%s conc=%d trim=%v key=%x key2=%x iv=%x len=%d parts=%v inplace=%v guardstart=%v dstlong=%v scribble=%v msg=%s",
+			c.Mode, c.Dec, pathNames[c.Path], c.Conc, c.Trim, k1, k2, iv, c.Len, c.Parts, c.InPlace, c.GStart, c.DstLong, c.Scribble, h.Hex(msg))
 	}
-	opt := bufOpt{c.InPlace, c.GStart, c.DstLong}
+	opt := bufOpt{c.InPlace, c.GStart, c.DstLong, c.Scribble}
 	// consult the list of known findings at most once per case, so that the
 	// evidence counts cases, not oracle calls
 	kfAsked, kfOpen := false, false
@@ -750,12 +837,18 @@ func checkCase(c mcase, r *h.Rec) error {
 		if err != nil {
 			return err
 		}
+		in := clone(msg)
 		out := make([]byte, len(msg))
-		ob.call(out, msg)
+		ob.call(out, in)
+		first := clone(out)
+		scribble(in)
+		scribble(out)
 		other := gen.Fill(c.Seed+11, bs+int(c.Seed%40))
 		ob.call(make([]byte, len(other)), other)
+		scribble(other)
 		out2 := make([]byte, len(msg))
 		ob.call(out2, msg)
+		out = first
 		if !bytes.Equal(out, got) || !bytes.Equal(out2, got) {
 			return fmt.Errorf("reusing one HCTR object changes its answer: %s / %s vs %s [%s]", h.Hex(out), h.Hex(out2), h.Hex(got), desc())
 		}
@@ -771,13 +864,25 @@ func checkCase(c mcase, r *h.Rec) error {
 		}
 		if s, ok := ob.bm.(interface{ SetIV([]byte) }); ok {
 			r.Label("SetIV")
+			var prevOut, prevSnap []byte
 			for round := 0; round < 2; round++ {
-				s.SetIV(iv)
+				ivc := clone(iv)
+				s.SetIV(ivc)
+				scribble(ivc)
+				if prevOut != nil {
+					if !bytes.Equal(prevOut, prevSnap) {
+						return fmt.Errorf("SetIV wrote into the dst of the previous CryptBlocks call [%s]", desc())
+					}
+					scribble(prevOut)
+				}
+				in := clone(msg)
 				out := make([]byte, len(msg))
-				ob.bm.CryptBlocks(out, msg)
+				ob.bm.CryptBlocks(out, in)
 				if !bytes.Equal(out, got) {
 					return fmt.Errorf("after SetIV (round %d) the object does not behave like a fresh one: %s [%s]", round, h.Hex(out), desc())
 				}
+				scribble(in)
+				prevOut, prevSnap = out, clone(out)
 			}
 		}
 	}
@@ -978,6 +1083,7 @@ func boundaryCases(mode string, emit func(mcase)) {
 					if v%2 == 1 && mode != "hctr" {
 						if cut := (n - 17) / 256 * 256; cut > 0 {
 							c.Parts = []int{cut, n - cut}
+							c.Scribble = true
 						}
 					}
 					if mode == "ctr" {
@@ -1139,6 +1245,7 @@ func genCase(mode string) func(*rapid.T) mcase {
 		c.GStart = rapid.Bool().Draw(t, "guardAtStart")
 		c.DstLong = rapid.Bool().Draw(t, "dstLong")
 		c.SetIV = rapid.Bool().Draw(t, "setIV")
+		c.Scribble = len(c.Parts) >= 2 && rapid.IntRange(0, 4).Draw(t, "contiguous") != 0
 		if isXTS(mode) || mode == "hctr" {
 			hi := 127
 			if c.Sector {
